@@ -1,14 +1,14 @@
 import PpciVerif.Model.PyRt
-import PpciVerif.Proofs.PyInt
 /-!
 T1 (py2lean): facts about the translator's runtime `Model.PyRt`, used to normalise
 generated definitions (`Gen/Py_*.lean`) into plain `Int` arithmetic so that
-`omega`/`simp` can compare them with the hand models.  The lemmas named
+`omega`/`simp` can compare them with the hand models.  Core Lean only (facts about literal bit
+masks, which need `Proofs.PyInt`, are in `T1_PyMask.lean`).  The lemmas named
 `*_lit` justify the translator's only optimisation (a literal divisor / shift
 count / exponent is translated without the exception check).
 -/
 namespace Proofs.T1
-open Model Model.PyRt Spec.Bits Proofs.Bits Proofs.PyInt
+open Model Model.PyRt
 
 @[simp] theorem bind_ok {α β : Type} (a : α) (f : α → Except PyErr β) : PyRt.bind (.ok a) f = f a := rfl
 @[simp] theorem bind_error {α β : Type} (e : PyErr) (f : α → Except PyErr β) :
@@ -59,28 +59,6 @@ theorem fmod_pos (a : Int) {b : Int} (h : 0 < b) : Int.fmod a b = a % b :=
   Int.fmod_eq_emod_of_nonneg a (Int.le_of_lt h)
 theorem fdiv_pos (a : Int) {b : Int} (h : 0 < b) : Int.fdiv a b = a / b :=
   Int.fdiv_eq_ediv_of_nonneg a (Int.le_of_lt h)
-
-theorem and_127 (x : Int) : PyInt.and x 127 = x % 128 := by simpa using and_mask x 7
-theorem and_1 (x : Int) : PyInt.and x 1 = x % 2 := and_one x
-theorem and_0xFF (x : Int) : PyInt.and x 255 = x % 256 := and_255 x
-theorem and_0xFFFFFFFF (x : Int) : PyInt.and x 4294967295 = x % 4294967296 := by simpa using and_mask x 32
-
-/-- a single-bit mask tests one binary digit -/
-theorem and_bit (x : Int) (k : Nat) : PyInt.and x (2 ^ k) = (x / 2 ^ k % 2) * 2 ^ k := by
-  rw [and_pow]
-  unfold testBit
-  have h := Int.emod_two_eq (x / 2 ^ k)
-  by_cases h1 : x / 2 ^ k % 2 = 1
-  · simp [h1]
-  · have h0 : x / 2 ^ k % 2 = 0 := by omega
-    simp [h0]
-theorem and_64 (x : Int) : PyInt.and x 64 = (x / 64 % 2) * 64 := by simpa using and_bit x 6
-theorem and_128 (x : Int) : PyInt.and x 128 = (x / 128 % 2) * 128 := by simpa using and_bit x 7
-
-/-- `b | 0x80` on a 7-bit value -/
-theorem or_128 {b : Int} (h0 : 0 ≤ b) (h1 : b < 128) : PyInt.or b 128 = b + 128 := by
-  have := or_eq_add_of_lt 1 (k := 7) (b := b) ⟨h0, by simpa using h1⟩
-  rw [Proofs.PyInt.or_comm]; simp at this; rw [this]; omega
 
 theorem abs_eq (x : Int) : PyRt.abs x = if x < 0 then -x else x := by
   unfold PyRt.abs; split <;> omega
